@@ -227,7 +227,9 @@ def applyOp (s s1 : Sys) (a i : Nat) (t : Rat) (x1 : Actor) (o : Op) (skipped : 
     -- the child runs its first slice (the registration of tag 0, a simcall) before its creator runs again
     some { s1 with acts := upd (upd s1.acts a { x1 with pendingHandle := some c }) c
                              { (s1.acts c) with life := .live, wake := some t, pid := s1.nextPid, born := t
-                                                onExit := [.tag 0], registered := [0] }
+                                                onExit := [.tag 0], registered := [0]
+                                                -- a new ActorImpl has no kill timer (`kill_timer_ = nullptr`)
+                                                killAt := none }
                    nextPid := s1.nextPid + 1 }
   | .kill b =>
     if targetAbsent b then (if skipped then some s1 else none) else
